@@ -67,6 +67,7 @@ type Engine struct {
 	lockHook   func(st *State, kind string, p *PtrV)
 	deadline   time.Time
 	uniqueTab  []uniqueEnt
+	cryptoCounter int
 	progress   bool
 	lastTick   time.Time
 }
